@@ -213,3 +213,39 @@ func TestPassThrough(t *testing.T) {
 		t.Fatal("ordered")
 	}
 }
+
+func TestShardingPartitionsTheSearch(t *testing.T) {
+	mk := func(seen map[string]int) func() (func(), func(*Exec)) {
+		return func() (func(), func(*Exec)) {
+			return func() {
+					x := 0
+					for i := 0; i < 3; i++ {
+						Go(func() { P("a"); x++; P("b"); x++; P("c") })
+					}
+				}, func(x *Exec) {
+					seen[fmt.Sprint(x.Choices())]++
+				}
+		}
+	}
+	for _, pb := range []int{1, 2} {
+		whole := map[string]int{}
+		st := Explore(Options{PreemptBound: pb}, mk(whole))
+		for _, shards := range []int{2, 5} {
+			union := map[string]int{}
+			var total int64
+			for sh := 0; sh < shards; sh++ {
+				s := Explore(Options{PreemptBound: pb, Shard: sh, Shards: shards}, mk(union))
+				total += s.Executions
+			}
+			if total != st.Executions || len(union) != len(whole) {
+				t.Errorf("pb=%d shards=%d: %d executions / %d distinct, unsharded %d / %d", pb, shards, total, len(union), st.Executions, len(whole))
+			}
+			for k, n := range union {
+				if n != 1 || whole[k] != 1 {
+					t.Errorf("schedule %s explored %d times across shards", k, n)
+					break
+				}
+			}
+		}
+	}
+}
